@@ -65,6 +65,7 @@ def evaluate(run, lines, meta, exe, drv):
     mlines = []
     parsed = {}
     flips = []   # second stage: header alterations
+    unusable = []
     for l in lines:
         cid = l.split(' ', 1)[0]
         _, st, ops, kinds = meta[cid]
@@ -72,6 +73,9 @@ def evaluate(run, lines, meta, exe, drv):
         o = parse(impl.get(cid, '(missing)'))
         run.count('impl:' + str(tag(o)))
         if tag(o) == 'schema-err':
+            continue
+        if tag(o) == 'writer-err' and fw.null_ns_schema(st):
+            unusable.append((cid, st, ops))
             continue
         if tag(o) != 'obs':
             run.fail('impl-' + str(tag(o)), 'implementation outcome %s' % show(o)[:200], {'schema': st, 'ops': ops})
@@ -84,6 +88,21 @@ def evaluate(run, lines, meta, exe, drv):
             sink = parse(op)[2]
             mops.append('(w %s %s)' % (show(v), sink))
         mlines.append('%s (so-history %s %s %s)' % (cid, show(o[1]), o[2], ' '.join(mops)))
+    if unusable:
+        # no single-object writer can be built: a known class only if the faithful model also fails to resolve the names
+        import sj
+        px = sj.run_impl('parse-text', {cid: st for cid, st, _ in unusable})
+        ul = []
+        for cid, st, ops in unusable:
+            q = px.get(cid)
+            if q is not None and tag(q) == 'obs' and tag(q[2]) == 'ok':
+                ul.append('%su (encode %s (null))' % (cid, show(q[2][1])))
+        um = fw.run_lines(drv, ul)
+        for cid, st, ops in unusable:
+            if um.get(cid + 'u', '').strip() == '(writer-err)':
+                run.fail('unresolvable-reference-accepted', 'the parser accepted the schema but no single-object writer can be built for it (a null-namespace name used inside a namespaced type)', {'schema': st, 'ops': ops})
+            else:
+                run.fail('impl-writer-err', 'implementation outcome (writer-err), model %s' % um.get(cid + 'u', 'none')[:60], {'schema': st, 'ops': ops})
     model = fw.run_lines(drv, mlines)
     for cid, o in parsed.items():
         _, st, ops, kinds = meta[cid]
